@@ -11,7 +11,9 @@ use crate::spec::*;
 use crate::c05::failure_kind;
 use crate::model::{self, DivPath};
 use fpdec::{CheckedDiv, DivRounded, MulRounded, RoundingMode};
-use fpdec_core::{i128_mul_div_ten_pow_rounded, i128_shifted_div_mod_floor, i128_shifted_div_rounded, i256_div_mod_floor, verif_cov};
+use fpdec_core::{i128_shifted_div_mod_floor, i256_div_mod_floor, verif_cov};
+#[cfg(feature = "hidden-rounded")]
+use fpdec_core::{i128_mul_div_ten_pow_rounded, i128_shifted_div_rounded};
 use serde_json::{json, Value};
 
 // class: fn(2) | sign(2) | rem(2: 0 zero, 1 nonzero) | qclass(2: fits, at-limit, overflow) | wide(1) | divisor class(2: <2^64, >=2^64 xh<y, xh>=y)
@@ -99,8 +101,19 @@ fn rounded_case(f: u64, a: i128, b: i128, k: u8, m: i128, mode: RoundingMode, vi
     };
     let (n, den) = if den.neg { (n.neg(), den.abs()) } else { (n, den) };
     let r = round_div(&n, &den.mag, mode);
-    let md = if via_default { None } else { Some(mode) };
-    let got = catch(|| if f == 2 { i128_mul_div_ten_pow_rounded(a, b, k, md) } else { i128_shifted_div_rounded(a, k, m, md) });
+    #[cfg(feature = "hidden-rounded")]
+    let got = { let md = if via_default { None } else { Some(mode) }; catch(|| if f == 2 { i128_mul_div_ten_pow_rounded(a, b, k, md) } else { i128_shifted_div_rounded(a, k, m, md) }) };
+    // engine built without feature hidden-rounded (the rounded kernels changed their signature): the same
+    // quotient through the public API under the thread's mode (every caller has set it to `mode`):
+    // round(a*b / 10^k) = (a, s1).mul_rounded((b, s2), 0) and round(a*10^k / m) = (a, 0).div_rounded((m, s1), s2)
+    // with s1 + s2 = k, which exists for k <= 36; a panic is the overflow signal
+    #[cfg(not(feature = "hidden-rounded"))]
+    let got: Result<Option<i128>, ()> = {
+        let _ = via_default;
+        if k > 36 { return; }
+        let (s1, s2) = (k.min(18), k - k.min(18));
+        Ok(catch(|| if f == 2 { fpdec::Decimal::new_raw(a, s1).mul_rounded(fpdec::Decimal::new_raw(b, s2), 0).coefficient() } else { fpdec::Decimal::new_raw(a, 0).div_rounded(fpdec::Decimal::new_raw(m, s1), s2).coefficient() }).ok())
+    };
     l.evals += 1;
     l.distinct += 1;
     let wide = !n.mag.fits_u128();
@@ -418,6 +431,7 @@ pub fn run(tier: Tier) -> i32 {
         assumptions: vec![
             "oracle: certificate a*b = q*m + r and 0 <= r < m checked by 512-bit multiplication; None iff the floor quotient is outside i128 (-2^127 itself: either)".into(),
             "the y<0 arms of i128_shifted_div_mod_floor are outside the property's contract (positive m) and are not driven".into(),
+            if cfg!(feature = "hidden-rounded") { "stage 3 drives the #[doc(hidden)] rounded kernels i128_mul_div_ten_pow_rounded / i128_shifted_div_rounded directly".to_string() } else { "engine built WITHOUT feature hidden-rounded (the rounded kernels changed their signature): stage 3 evaluates the same quotients through mul_rounded / div_rounded (k <= 36)".to_string() },
             "branch coverage of the multi-word division is measured by hook counters (reported, not gated except that listed branches must be reached)".into(),
         ],
         class_name: &class_name_ext,
